@@ -425,3 +425,128 @@ Proof.
   assert (E : map fst (merge_spec C07_ex.target C07_ex.other) = map fst C07_ex.target ++ [C07_ex.kd]) by (vm_compute; reflexivity).
   rewrite E in H. split; [symmetry; exact (app_inv_head _ _ _ H) | split; vm_compute; reflexivity].
 Qed.
+
+(* ================================================================================================== *)
+(* added from Properties/C07_add.v (2026-10-01)                                              *)
+(* ================================================================================================== *)
+(* C07 (continued): the clean-up invariant.  SDict._clean (run after every update / merge / copy) deletes placeholder
+   entries whose comment / include text repeats an earlier one OF THE SAME DICT LEVEL, together with their table rows.
+   clean_state characterises its fixed points: the data is a Python dict at every level (wf) and, at every level reachable
+   through dicts, the table entries looked up for the placeholder keys of one kind are pairwise different (keys without an
+   id or without a table row do not count; dicts inside lists are not visited).  Needs CleanInvariant (after IncludeNested,
+   RereadNum, OrderFile, WorkflowProofs, WriteProofs in _CoqProject). *)
+From Coq Require Import String.
+From Coq Require Import NArith ZArith List Bool.
+From DictIO Require Import Chars Str Value Scalar KeyPath SDict TreeSpec CleanInvariant.
+Import ListNotations.
+
+Module C07_clean_ex.
+  Definition ph (w : string) : key * tree := (KS (of_string w), Leaf (SStr (of_string w))).
+  Definition ka := KS (of_string "a").  Definition kb := KS (of_string "b").
+  (* the same comment text "// c" at two levels (allowed), and twice at the top level and twice in a (deleted by _clean);
+     an include placeholder twice with the same entry; a key that merely looks like a placeholder and has no table row *)
+  Definition inc1 : include_entry := (of_string "#include 'x'", of_string "x", of_string "/d/x").
+  Definition dirty : sdict :=
+    mkSD [ph "LINECOMMENT000001"; (kb, Leaf (SInt 1)); ph "LINECOMMENT000002"; ph "INCLUDE000007"; ph "INCLUDE000008";
+          (ka, Dict [ph "LINECOMMENT000003"; (kb, Leaf (SInt 2)); ph "LINECOMMENT000004"; ph "BLOCKCOMMENT000099"]);
+          (KI 5, Lst [Dict [ph "LINECOMMENT000003"; ph "LINECOMMENT000004"]])]
+         [(1%N, of_string "// c"); (2%N, of_string "// c"); (3%N, of_string "// c"); (4%N, of_string "// c")] []
+         [(7%N, inc1); (8%N, inc1)] [].
+  Definition clean : sdict := sd_clean dirty.
+End C07_clean_ex.
+
+(* a clean state is a fixed point of the clean-up *)
+Theorem C07_clean_fixpoint : forall s, clean_state s = true -> sd_clean s = s.
+Proof. exact clean_state_fix. Qed.
+Print Assumptions C07_clean_fixpoint.
+
+(* the clean-up establishes the invariant (the ids of a side table are distinct: they are the keys of a Python dict) *)
+Theorem C07_clean_establishes : forall s, wf (Dict (sd_data s)) = true -> tabs_ok s = true ->
+  clean_state (sd_clean s) = true /\ tabs_ok (sd_clean s) = true.
+Proof. exact sd_clean_establishes. Qed.
+Print Assumptions C07_clean_establishes.
+
+(* so clean_state is exactly "the clean-up changes nothing" *)
+Theorem C07_clean_exact : forall s, wf (Dict (sd_data s)) = true -> tabs_ok s = true -> (clean_state s = true <-> sd_clean s = s).
+Proof. exact clean_state_exact. Qed.
+Print Assumptions C07_clean_exact.
+
+Theorem C07_clean_idempotent : forall s, wf (Dict (sd_data s)) = true -> tabs_ok s = true -> sd_clean (sd_clean s) = sd_clean s.
+Proof. exact sd_clean_idempotent. Qed.
+Print Assumptions C07_clean_idempotent.
+
+Example C07_clean_nonvacuous :
+  wf (Dict (sd_data C07_clean_ex.dirty)) = true /\ tabs_ok C07_clean_ex.dirty = true /\ clean_state C07_clean_ex.dirty = false /\
+  sd_clean C07_clean_ex.dirty <> C07_clean_ex.dirty /\
+  (* what is left: one comment per level, one include; the dict inside the list keeps its two *)
+  map fst (sd_data C07_clean_ex.clean) = [KS (of_string "LINECOMMENT000001"); C07_clean_ex.kb; KS (of_string "INCLUDE000007"); C07_clean_ex.ka; KI 5] /\
+  sd_lc C07_clean_ex.clean = [(1%N, of_string "// c"); (3%N, of_string "// c")] /\
+  clean_state C07_clean_ex.clean = true /\ sd_clean C07_clean_ex.clean = C07_clean_ex.clean /\
+  sd_clean (sd_clean C07_clean_ex.dirty) = sd_clean C07_clean_ex.dirty.
+Proof.
+  assert (W : wf (Dict (sd_data C07_clean_ex.dirty)) = true) by (vm_compute; reflexivity).
+  assert (T : tabs_ok C07_clean_ex.dirty = true) by (vm_compute; reflexivity).
+  destruct (C07_clean_establishes _ W T) as [C _].
+  split; [exact W|]. split; [exact T|]. split; [vm_compute; reflexivity|]. split; [vm_compute; discriminate|].
+  split; [vm_compute; reflexivity|]. split; [vm_compute; reflexivity|]. split; [exact C|].
+  split; [exact (C07_clean_fixpoint _ C)|exact (C07_clean_idempotent _ W T)].
+Qed.
+
+(* finding (model only: a Python dict cannot hold one id twice): with a repeated id in a side table the clean-up is not
+   idempotent -- deleting the first row of id 1 uncovers the second one *)
+Example C07_clean_idempotent_ids_finding :
+  let s := mkSD [C07_clean_ex.ph "BLOCKCOMMENT000001"; C07_clean_ex.ph "xBLOCKCOMMENT000001"; C07_clean_ex.ph "BLOCKCOMMENT000002"]
+                [] [(1%N, of_string "/* a */"); (1%N, of_string "/* b */"); (2%N, of_string "/* b */")] [] [] in
+  wf (Dict (sd_data s)) = true /\ tabs_ok s = false /\ sd_clean (sd_clean s) <> sd_clean s.
+Proof. cbv zeta. split; [vm_compute; reflexivity|]. split; [vm_compute; reflexivity|]. vm_compute. discriminate. Qed.
+
+(* the invariant is hereditary: a sub-dict of a clean state, with the tables of the state, is a clean state ... *)
+Theorem C07_clean_hereditary : forall s p sub, clean_state s = true -> get_dpath (Dict (sd_data s)) p = Some (Dict sub) ->
+  clean_state (mkSD sub (sd_lc s) (sd_bc s) (sd_inc s) (sd_expr s)) = true.
+Proof. exact clean_state_sub. Qed.
+Print Assumptions C07_clean_hereditary.
+
+(* ... so SDict.update of the emptied state with one of its sub-dicts (what reduce_scope does) gives that sub-dict *)
+Theorem C07_clean_update_sub : forall s p sub, clean_state s = true -> get_dpath (Dict (sd_data s)) p = Some (Dict sub) ->
+  sd_update (mkSD [] (sd_lc s) (sd_bc s) (sd_inc s) (sd_expr s)) sub None = mkSD sub (sd_lc s) (sd_bc s) (sd_inc s) (sd_expr s).
+Proof. exact clean_state_update_sub. Qed.
+Print Assumptions C07_clean_update_sub.
+
+Example C07_clean_update_sub_nonvacuous :
+  let s := C07_clean_ex.clean in
+  exists sub, clean_state s = true /\ get_dpath (Dict (sd_data s)) [C07_clean_ex.ka] = Some (Dict sub) /\
+    map fst sub = [KS (of_string "LINECOMMENT000003"); C07_clean_ex.kb; KS (of_string "BLOCKCOMMENT000099")] /\
+    clean_state (mkSD sub (sd_lc s) (sd_bc s) (sd_inc s) (sd_expr s)) = true /\
+    sd_update (mkSD [] (sd_lc s) (sd_bc s) (sd_inc s) (sd_expr s)) sub None = mkSD sub (sd_lc s) (sd_bc s) (sd_inc s) (sd_expr s).
+Proof.
+  cbv zeta.
+  assert (C : clean_state C07_clean_ex.clean = true) by (vm_compute; reflexivity).
+  destruct (get_dpath (Dict (sd_data C07_clean_ex.clean)) [C07_clean_ex.ka]) as [[v|sub|ts]|] eqn:P; try (vm_compute in P; discriminate P).
+  exists sub. split; [exact C|]. split; [reflexivity|]. split; [vm_compute in P; injection P as <-; reflexivity|].
+  split; [exact (C07_clean_hereditary _ _ _ C P)|exact (C07_clean_update_sub _ _ _ C P)].
+Qed.
+
+(* update and merge end in a clean state (any argument, any tables of the argument) *)
+Theorem C07_update_merge_clean : forall s m o, wf (Dict (sd_data s)) = true -> wf (Dict m) = true -> tabs_ok s = true ->
+  (clean_state (sd_update s m o) = true /\ tabs_ok (sd_update s m o) = true) /\
+  (clean_state (sd_merge s m o) = true /\ tabs_ok (sd_merge s m o) = true).
+Proof.
+  intros s m o Hs Hm Ht. split.
+  - apply sd_update_good; [exact Hs| |exact Ht]. apply SDictProofs.wf_Dict_iff in Hm. exact (proj2 Hm).
+  - apply sd_merge_good; assumption.
+Qed.
+Print Assumptions C07_update_merge_clean.
+
+Example C07_update_merge_clean_nonvacuous :
+  let s := C07_clean_ex.clean in let o := C07_clean_ex.dirty in
+  wf (Dict (sd_data s)) = true /\ wf (Dict (sd_data o)) = true /\ tabs_ok s = true /\
+  clean_state (sd_update s (sd_data o) (Some o)) = true /\ clean_state (sd_merge s (sd_data o) (Some o)) = true /\
+  sd_lc (sd_merge s (sd_data o) (Some o)) = [(1%N, of_string "// c"); (3%N, of_string "// c")].
+Proof.
+  cbv zeta.
+  assert (W : wf (Dict (sd_data C07_clean_ex.clean)) = true) by (vm_compute; reflexivity).
+  assert (W2 : wf (Dict (sd_data C07_clean_ex.dirty)) = true) by (vm_compute; reflexivity).
+  assert (T : tabs_ok C07_clean_ex.clean = true) by (vm_compute; reflexivity).
+  destruct (C07_update_merge_clean _ _ (Some C07_clean_ex.dirty) W W2 T) as [[A _] [B _]].
+  split; [exact W|]. split; [exact W2|]. split; [exact T|]. split; [exact A|]. split; [exact B|]. vm_compute. reflexivity.
+Qed.
